@@ -277,6 +277,19 @@ func checkC17(c *Check) {
 			entries = append(entries, f)
 		}
 	}
+	if len(entries) == 1 {
+		// by role: the functions of pkg/arrai/transform that call Normalize
+		for _, f := range p.RepoFuncs() {
+			if fnPkgPath(f) != repoMod+"/pkg/arrai/transform" || f.Parent() != nil || strings.HasSuffix(p.fnFile(f), "_test.go") {
+				continue
+			}
+			eachCall(f, func(cl ssa.CallInstruction) {
+				if sc := staticCallee(cl); sc != nil && sc == entries[0] {
+					entries = append(entries, f)
+				}
+			})
+		}
+	}
 	if len(entries) < 1 {
 		return
 	}
@@ -299,6 +312,30 @@ func checkC17(c *Check) {
 	var ns []*ssa.Function
 	if f := p.FuncByName("pkg/arrai/relmod.normalizeStatement"); f != nil {
 		ns = withClosures(f)
+	} else {
+		// by role: the function of the package that is handed a statement and
+		// comes back to itself (directly or from a closure of its own)
+		for _, g := range p.RepoFuncs() {
+			if fnPkgPath(g) != repoMod+"/pkg/arrai/relmod" || g.Parent() != nil || ns != nil {
+				continue
+			}
+			takes := false
+			for _, prm := range g.Params {
+				if typeIs(prm.Type(), syslPkg, "Statement") {
+					takes = true
+				}
+			}
+			if !takes {
+				continue
+			}
+			for _, h := range withClosures(g) {
+				eachCall(h, func(cl ssa.CallInstruction) {
+					if staticCallee(cl) == g {
+						ns = withClosures(g)
+					}
+				})
+			}
+		}
 	}
 	runStmtKinds(c, "STMT-KINDS", "normalizeStatement", ns)
 	// type kinds in normalizeType / field types: coverage of producible type kinds
@@ -308,6 +345,31 @@ func checkC17(c *Check) {
 			// with the helpers of the package it hands the type on to
 			for g := range repoReach(p, f) {
 				if fnPkgPath(g) == fnPkgPath(f) {
+					nt = append(nt, g)
+				}
+			}
+		}
+	}
+	if len(nt) == 0 {
+		// by role: the functions of the package that are handed a type, with the
+		// helpers of the package they hand it on to
+		seenT := map[*ssa.Function]bool{}
+		for _, f := range p.RepoFuncs() {
+			if fnPkgPath(f) != repoMod+"/pkg/arrai/relmod" || f.Parent() != nil || strings.HasSuffix(p.fnFile(f), "_test.go") {
+				continue
+			}
+			takes := false
+			for _, prm := range f.Params {
+				if typeIs(prm.Type(), syslPkg, "Type") {
+					takes = true
+				}
+			}
+			if !takes {
+				continue
+			}
+			for g := range repoReach(p, f) {
+				if fnPkgPath(g) == fnPkgPath(f) && !seenT[g] {
+					seenT[g] = true
 					nt = append(nt, g)
 				}
 			}
